@@ -43,6 +43,13 @@ CLAIMS.update({
          "3.2, 4 (C03)"),
 })
 
+CLAIMS.update({
+ "C24": ("constant/interval agreement between Pack's guards, its bit packing and Scan's decoding, extracted from SSA",
+         "Decides that every value Pack stores fits the bit field it is shifted into for every number of states/actions Pack accepts, that Scan decodes with the inverse constants, that the ASCII guard agrees with the byte split, that tables the simple decode cannot represent (checkpoints, several start states) are rejected, and that the package keeps no state between calls. Necessary conditions of scanner/table agreement.",
+         "lex.Tables layout (Dfa row-major by NumSymbols, symbol 0 = end of input) as documented in lex/lex.go.",
+         "3.5, 3.6, 4 (C24)"),
+})
+
 NA = {
 }
 
